@@ -28,7 +28,7 @@ GOOD_LINES = ["\tnop", "\tlda #1", "\tsta $10", "lbl%d:\tinx", "\tmessage \"m\""
 
 
 def budget(tier):
-    return dict(examples=3000 if tier == "quick" else 40000, shards=16)
+    return dict(examples=8000 if tier == "quick" else 40000, shards=16)
 
 
 def gen_file(d, name, allow_big, idx):
